@@ -142,28 +142,39 @@ func init() {
 // phiLeaves flattens nested phis: every non-phi value that can flow into v, with the phi edge it enters through.
 type phiLeaf struct {
 	val ssa.Value
-	phi *ssa.Phi // nil when v itself is the leaf
+	phi *ssa.Phi // the Phi the leaf enters directly; nil when v itself is the leaf
+	idx int
+	// chain: every merge edge the leaf passes on its way to the flattened value, innermost first
+	chain []phiEdge
+}
+
+type phiEdge struct {
+	phi *ssa.Phi
 	idx int
 }
 
 func phiLeaves(v ssa.Value) []phiLeaf {
 	var out []phiLeaf
 	seen := map[*ssa.Phi]bool{}
-	var rec func(x ssa.Value, p *ssa.Phi, i int)
-	rec = func(x ssa.Value, p *ssa.Phi, i int) {
+	var rec func(x ssa.Value, chain []phiEdge)
+	rec = func(x ssa.Value, chain []phiEdge) {
 		if ph, ok := x.(*ssa.Phi); ok {
 			if seen[ph] {
 				return
 			}
 			seen[ph] = true
 			for k, e := range ph.Edges {
-				rec(e, ph, k)
+				rec(e, append([]phiEdge{{ph, k}}, chain...))
 			}
 			return
 		}
-		out = append(out, phiLeaf{x, p, i})
+		lf := phiLeaf{val: x, chain: chain}
+		if len(chain) > 0 {
+			lf.phi, lf.idx = chain[0].phi, chain[0].idx
+		}
+		out = append(out, lf)
 	}
-	rec(v, nil, 0)
+	rec(v, nil)
 	return out
 }
 
@@ -260,7 +271,22 @@ func c12Cover(c *core.Ctx) {
 				if call.Call.IsInvoke() {
 					name = call.Call.Method.Name()
 				}
-				isRootIdx := func(v ssa.Value) bool {
+				var isRootIdx func(v ssa.Value) bool
+				isRootIdx = func(v ssa.Value) bool {
+					// the index may have travelled through a merge with 0 placeholders of error paths
+					if phi, isPhi := v.(*ssa.Phi); isPhi {
+						n := 0
+						for _, lf2 := range phiLeaves(phi) {
+							if k, isC := core.ConstInt(lf2.val); isC && k == 0 {
+								continue
+							}
+							n++
+							if !isRootIdx(lf2.val) {
+								return false
+							}
+						}
+						return n >= 1
+					}
 					b := fieldBase(v, "Index")
 					rex, ok := b.(*ssa.Extract)
 					if !ok || rex.Index != 0 {
@@ -285,13 +311,19 @@ func c12Cover(c *core.Ctx) {
 						Target: func(x ssa.Instruction) bool { return x == ans.at },
 					}).From(core.After(call), nil)
 				} else {
-					pred := lf.phi.Block().Preds[lf.idx]
-					to := lf.phi.Block()
-					f = (&core.Walk{
-						Stop:       func(x ssa.Instruction) bool { return x == ssa.Instruction(call) },
-						EdgeOK:     core.Forbid(cover),
-						TargetEdge: func(from *ssa.BasicBlock, si int) bool { return from == pred && from.Succs[si] == to },
-					}).From(core.After(call), nil)
+					// the record becomes the answer through a chain of merges (a probe result expanded in place first
+					// passes an inner merge and is compared after it): one guarded edge of the chain is enough
+					for _, pe := range lf.chain {
+						pred, to := pe.phi.Block().Preds[pe.idx], pe.phi.Block()
+						f = (&core.Walk{
+							Stop:       func(x ssa.Instruction) bool { return x == ssa.Instruction(call) },
+							EdgeOK:     core.Forbid(cover),
+							TargetEdge: func(from *ssa.BasicBlock, si int) bool { return from == pred && from.Succs[si] == to },
+						}).From(core.After(call), nil)
+						if f == nil {
+							break
+						}
+					}
 				}
 				if len(cover) == 0 || f != nil {
 					allOK = false
@@ -350,3 +382,4 @@ func fieldNameOf(fa *ssa.FieldAddr) string {
 	}
 	return ""
 }
+
